@@ -47,6 +47,7 @@ def run(model, res, tier):
     res.rule('R5', 'TRUE, FALSE, NULL are predefined')
     res.rule('R6', 'registered names are lexed as FUNCTION tokens')
     res.rule('R7', 'name resolution keeps no cache / shared state')
+    res.rule('R9', 'the argument list reaches the function as written: one argument per separator-delimited slot, in order, whatever the argument values are (shared with C05.R3)')
     res.rule('R8', 'the lexer hands function and variable names on verbatim (token rules of name tokens return the token unmodified)')
     res.assumptions += ['A3 ply swallows SyntaxError raised in a reduce action', 'host callbacks do not raise SyntaxError themselves']
     res.trusted += ['CPython ast', 'ply 3.11 token ordering', 'Python re for membership of the 156 registry names in the token language']
@@ -61,6 +62,9 @@ def run(model, res, tier):
     _r5(model, res, c)
     _r6(model, res, c)
     name_tokens_verbatim(model, res, c, cbs, 'R8')
+    from . import c05
+    from .. import abshelp as H
+    H.borrow(res, 'R9', 'argument sequences', lambda tmp: c05._r3(model, tmp, c, c.grammar))
     from . import c03
     c03.instance_state(model, res, c, 'R7')
     region = set(cg.reachable([cbs['call_function'], cbs['call_variable']]))
